@@ -31,8 +31,10 @@ def _run_one(item):
             from hexvc.tasks import run_task
 
             t = reg.func_tasks[key]
-            r = run_task(src, reg.contracts, reg.loops, key, natives=reg.natives, timeout_ms=timeout_ms,
-                         props=t.get("props"), builder=t.get("builder"), force_inline=t.get("force_inline", ()))
+            r = run_task(src, reg.contracts, reg.loops, t.get("qualname", key), natives=reg.natives, timeout_ms=timeout_ms,
+                         props=t.get("props"), builder=t.get("builder"), force_inline=t.get("force_inline", ()),
+                         extra_contract=t.get("contract"))
+            r.qualname = key
         else:
             from hexvc.indicators import run_indicator_task
 
